@@ -5,6 +5,8 @@ Go map iterations give results that do not depend on the iteration order.
 import AvoVerif.Lemmas.MaskSet
 import AvoVerif.Model.Alloc
 import AvoVerif.Lemmas.AllocPerm
+import AvoVerif.Lemmas.AllocProof2
+import AvoVerif.Model.ISA
 namespace Avo.Determinism
 open Avo.Reg Avo.MaskSet Avo.Alloc
 
@@ -375,6 +377,107 @@ theorem allocLoop_perm : ∀ (fuel : Nat) (s t : AState), StEqv s t → (s.possi
             apply allocLoop_perm fuel
             · exact ⟨rfl, hp.filter _, (List.reverse_perm r).trans (hr.trans (List.reverse_perm r').symm)⟩
             · exact (List.Nodup.sublist ((List.filter_sublist).map _) hk)
+
+/-! ## pass/reg.go `AllocateRegisters`: `range as` and `Allocation.Merge` -/
+
+/-- The per-kind allocations have keys of their own kind, so the merged
+allocation — as a lookup function — does not depend on the order in which the
+map of allocators is iterated and merged. -/
+theorem allocate_kinds_perm (a : Nat → List (Nat × Nat)) (hkeys : ∀ j, ∀ e ∈ a j, idKind e.1 = j)
+    {ks ks' : List Nat} (h : ks.Perm ks') (z : Nat) :
+    lookupDefault (ks.flatMap a) z = lookupDefault (ks'.flatMap a) z := by
+  rw [lookup_flatten a hkeys z ks, lookup_flatten a hkeys z ks']
+  have : idKind z ∈ ks ↔ idKind z ∈ ks' := h.mem_iff
+  by_cases hm : idKind z ∈ ks
+  · simp [hm, this.mp hm]
+  · have : idKind z ∉ ks' := fun h' => hm (this.mpr h')
+    simp [hm, this]
+
+/-! ## pass/isa.go `RequiredISAExtensions`: `range set` then `sort.Strings` -/
+
+open Avo.ISA in
+theorem insertStr_perm (x : String) (l : List String) : (insertStr x l).Perm (x :: l) := by
+  induction l with
+  | nil => simp [insertStr]
+  | cons y ys ih =>
+    simp only [insertStr]
+    by_cases h : x < y
+    · rw [if_pos h]
+    · rw [if_neg h]; exact (List.Perm.cons y ih).trans (List.Perm.swap x y ys)
+
+open Avo.ISA in
+theorem sortStrs_perm_self (l : List String) : (sortStrs l).Perm l := by
+  induction l with
+  | nil => simp [sortStrs]
+  | cons x xs ih =>
+    simp only [sortStrs, List.foldr_cons]
+    exact (insertStr_perm x _).trans (List.Perm.cons x ih)
+
+open Avo.ISA in
+theorem insertStr_sorted (x : String) (l : List String) (hx : x ∉ l) (hs : l.Pairwise (· < ·)) :
+    (insertStr x l).Pairwise (· < ·) := by
+  induction l with
+  | nil => simp [insertStr]
+  | cons y ys ih =>
+    simp only [insertStr]
+    rw [List.pairwise_cons] at hs
+    by_cases h : x < y
+    · rw [if_pos h, List.pairwise_cons]
+      refine ⟨?_, List.pairwise_cons.mpr hs⟩
+      intro z hz
+      rcases List.mem_cons.mp hz with rfl | hz
+      · exact h
+      · exact String.lt_trans h (hs.1 z hz)
+    · rw [if_neg h, List.pairwise_cons]
+      have hxy : x ≠ y := fun e => hx (e ▸ List.mem_cons_self)
+      have hyx : y < x := by
+        have hle : y ≤ x := String.not_lt.mp h
+        apply Classical.byContradiction
+        intro hn
+        exact hxy (String.le_antisymm (String.not_lt.mp hn) hle)
+      refine ⟨?_, ih (fun hm => hx (List.mem_cons_of_mem _ hm)) hs.2⟩
+      intro z hz
+      rcases List.mem_cons.mp ((insertStr_perm x ys).mem_iff.mp hz) with rfl | hz
+      · exact hyx
+      · exact hs.1 z hz
+
+open Avo.ISA in
+theorem sortStrs_sorted (l : List String) (hn : l.Nodup) : (sortStrs l).Pairwise (· < ·) := by
+  induction l with
+  | nil => simp [sortStrs]
+  | cons x xs ih =>
+    simp only [sortStrs, List.foldr_cons]
+    rw [List.nodup_cons] at hn
+    apply insertStr_sorted x _ _ (ih hn.2)
+    intro hm
+    exact hn.1 ((sortStrs_perm_self xs).mem_iff.mp hm)
+
+theorem strSorted_perm_eq : ∀ (l1 l2 : List String), l1.Pairwise (· < ·) → l2.Pairwise (· < ·) → l1.Perm l2 → l1 = l2
+  | [], l2, _, _, h => by simpa using h.symm.eq_nil
+  | a :: l1, [], _, _, h => by simpa using h.eq_nil
+  | a :: l1, b :: l2, h1, h2, h => by
+    rw [List.pairwise_cons] at h1 h2
+    have hab : a = b := by
+      have ha : a ∈ b :: l2 := h.mem_iff.mp List.mem_cons_self
+      have hb : b ∈ a :: l1 := h.mem_iff.mpr List.mem_cons_self
+      rcases List.mem_cons.mp ha with e | ha'
+      · exact e
+      · rcases List.mem_cons.mp hb with e | hb'
+        · exact e.symm
+        · exact absurd (h1.1 b hb') (String.lt_asymm (h2.1 a ha'))
+    subst hab
+    rw [strSorted_perm_eq l1 l2 h1.2 h2.2 (List.Perm.cons_inv h)]
+
+open Avo.ISA in
+/-- `RequiredISAExtensions`: the sorted list does not depend on the order in
+which the set of extensions is iterated. -/
+theorem requiredISA_perm {s s' : List String} (hn : s.Nodup) (h : s.Perm s') : requiredISA s = requiredISA s' := by
+  unfold requiredISA
+  apply strSorted_perm_eq _ _ (sortStrs_sorted s hn) (sortStrs_sorted s' (h.nodup_iff.mp hn))
+  exact (sortStrs_perm_self s).trans (h.trans (sortStrs_perm_self s').symm)
+
+/-- Non-vacuity. -/
+example : Avo.ISA.requiredISA ["AVX512VL", "AVX", "AVX512F"] = ["AVX", "AVX512F", "AVX512VL"] := by decide
 
 /-- Non-vacuity. -/
 example : mostRestricted [(513, [256, 65792]), (257, [256, 65792]), (769, [256])] = some (769, [256]) := by decide
